@@ -323,6 +323,18 @@ def run(tier: str, seed: int) -> CheckResult:
         for script in (['arb', 'ok'], ['arb', 'arb', 'ok'], ['temp', 'arb', 'ok']):
             for cfg in (dict(errors=None, retries=None, timeout=None, backoff=0.0), dict(errors=None, retries=3, timeout=None, backoff=0.0)):
                 plain.append(build(carrier, cfg, script, delays=False, early_user=False, time_dev=False))
+    # a deletion handler that takes over from a creation / update handler still waiting for its retry (the cause is superseded: the
+    # old handler's leftovers are dropped, the new handler's own record must survive that)
+    for cfg in cfgs:
+        for script in (['temp', 'ok'], ['temp', 'temp', 'ok'], ['arb', 'temp', 'ok'], ['temp', 'perm']):
+            h = {k: v for k, v in cfg.items() if v is not None}
+            for waiting in ('create', 'update'):
+                handlers = [dict(id='c1', on='create', script=['temp60', 'ok'] if waiting == 'create' else ['ok']),
+                            dict(id='u1', on='update', script=['temp60', 'ok']), dict(id='d1', on='delete', script=script, **h)]
+                user = [(1.0, 'create', 'a')] + ([(4.0, 'spec', 'a', 2)] if waiting == 'update' else []) + [(7.0, 'delete', 'a')]
+                plain.append(C11Scenario(handlers=handlers, user=user, horizon=60.0, cfg=cfg, script=script, carrier='change', subject='d1',
+                                         variant=f'delete-supersedes-{waiting}', settings={'persistence__consistency_timeout': 5.0},
+                                         delays=False, early_user=False, time_dev=False))
     # the same laws on a ReplicaSet owned by a Deployment, where the records live under differently named annotations
     for carrier in ('change', 'sub', 'parent'):
         # (the parent's reference covers children that fail with temporary errors only)
